@@ -107,13 +107,13 @@ func runNum() {
 	defer tr.Close()
 	thorough := *fTier == "thorough"
 	prop := *fProp
-	if prop == "C18" || prop == "" {
+	if prop == "C18" || prop == "C08" || prop == "" {
 		fieldEvents(tr, r, thorough)
 	}
-	if prop == "C19" || prop == "" {
+	if prop == "C19" || prop == "C08" || prop == "" {
 		scalarEvents(tr, r, thorough)
 	}
-	if prop == "C16" || prop == "" {
+	if prop == "C16" || prop == "C08" || prop == "" {
 		groupEvents(tr, r, thorough)
 	}
 	fmt.Printf("events=%d\n", tr.Count())
